@@ -1,4 +1,5 @@
 import IpcModel.TableScript
+import IpcModel.Wire
 /-!
 # C16 (continued) — the table handling of `OpaqueIpcMessage::to`, as the translator reads it from `src/ipc.rs`
 
@@ -56,6 +57,11 @@ theorem C16_takeAll_length {α : Type} (idx : List Nat) (l : List (Option α)) :
 /-- the shapes of the endpoint / region (de)serialisers the decoder model relies on, regenerated: the index written is the
 table length before the push; an index is honoured only in range and once; `usize::MAX` stands for the empty region -/
 theorem C16_shape : Gen.shape_serIndexBeforePush = true ∧ Gen.shape_takeChecked = true ∧ Gen.shape_shmEmptySentinel = true := by decide
+
+/-- **C16_code_variant** — the decoder variant the theorems of `Props/C16.lean` are about (`Wire.Variant.legacy = false`: an index is
+honoured only in range and once, otherwise an error — never a panic or a handle on an invalid descriptor) is the one the
+source has now: every table lookup in the (de)serialisers goes through `get_mut(index).and_then(Option::take)`. -/
+theorem C16_code_variant : (⟨!Gen.shape_takeChecked⟩ : Wire.Variant) = ⟨false⟩ := by decide
 
 /-- the order of a change that returns the decode error before swapping back (`deserialize(..)?`): after a failed decode
 the thread-local tables hold the message's attachments and the enclosing tables are lost -/
